@@ -8,7 +8,7 @@ from persim import bottleneck
 
 from ..core import Clause, close
 from ..oracles import matching as M
-from ..strategies import diagram_family
+from ..strategies import diagram_family, valid_family
 from ._dist import (EMPTY_FORMS, INF, as_input, call_quiet, coord_scale, has_dup, lattice_slice_cases,
                     pair_labels, small_pairs)
 
@@ -150,3 +150,9 @@ CLAUSES = [
            rule="the SAME generated cases are evaluated in all 16 shard processes (PYTHONHASHSEED 0..15); results must be "
                 "bit-identical across processes and equal the reference; non-trivial = >= 2 points each"),
 ]
+
+
+def VALID_DEFAULT(case):
+    if "fam" in case:
+        return valid_family(case["fam"])
+    return all(p[1] >= p[0] for p in case["A"] + case["B"])
